@@ -35,7 +35,10 @@ def kfFlags (c : GenCfg) : List (String × GenCfg) :=
   (if c.copyNilDestPanics then [("copy-nil-dest-panics", { c with copyNilDestPanics := false })] else []) ++
   (if c.resetNilPtrPanics then [("reset-nil-ptr-panics", { c with resetNilPtrPanics := false })] else []) ++
   (if c.copyEmptyPtrCollDropped then [("copy-empty-ptr-coll-dropped", { c with copyEmptyPtrCollDropped := false })] else []) ++
-  (if c.strAppendsOld then [("assign-str-appends", { c with strAppendsOld := false })] else [])
+  (if c.strAppendsOld then [("assign-str-appends", { c with strAppendsOld := false })] else []) ++
+  (if c.setLostUpdate then [("set-lost-update", { c with setLostUpdate := false })] else []) ++
+  (if c.setNilMapStorePanics then [("set-nil-map-store", { c with setNilMapStorePanics := false })] else []) ++
+  (if c.setNilLeafPtrPanics then [("set-nil-leaf-ptr", { c with setNilLeafPtrPanics := false })] else [])
 
 def allFixed (c : GenCfg) : GenCfg :=
   (kfFlags c).foldl (fun _acc _x => GenCfg.fixed) c
@@ -402,6 +405,56 @@ def opAssign (st : St) (head srcToks modeToks outToks : List String) : String :=
     | _, _ => "skip unresolved-input"
   | _, _ => "skip bad-record"
 
+/-- Observation of a Set call: destination afterwards (capacities and nil/empty dropped). -/
+inductive SetObs
+  | ok (root : Val) | err (root : Val) | panic
+
+instance : BEq SetObs := ⟨fun a b => match a, b with
+  | .ok x, .ok y => x == y
+  | .err x, .err y => x == y
+  | .panic, .panic => true
+  | _, _ => false⟩
+
+def showSetObs : SetObs → String
+  | .ok v => "ok " ++ showVal v
+  | .err v => "err " ++ showVal v
+  | .panic => "panic"
+
+def setObsOf : SetOut → SetObs
+  | .ok v => .ok (canon (dropCaps v))
+  | .err v => .err (canon (dropCaps v))
+  | .panic => .panic
+
+/-- S <tid> <form> <vid> | <path> | <src…> | <bufmode> | ok <root> | err <root> | panic -/
+def opSet (st : St) (head pathToks srcToks modeToks outToks : List String) : String :=
+  match head, modeToks with
+  | [_, tid, form, vid], [bufMode] =>
+    match st.types[tid]?, st.vals[vid]?, parseForm form, parsePath pathToks, parseSrc srcToks with
+    | some n, some v, some f, some (p, _), some src =>
+      let impl : Option SetObs := match outToks with
+        | ["panic"] => some .panic
+        | "ok" :: rest => (parseVal rest).map fun (x, _) => SetObs.ok (canon (dropCaps (coerce n x)))
+        | "err" :: rest => (parseVal rest).map fun (x, _) => SetObs.err (canon (dropCaps (coerce n x)))
+        | _ => none
+      if src.pf == .inexact && src.kind.family == .text then "skip inexact-operand" else
+      if p.any (fun s => s.pf == .inexact) then "skip inexact-key" else
+      (match impl with
+       | some impl =>
+         let noBuf := bufMode == "none"
+         let acc (o : SetObs) : Bool :=
+           match rootOf f, f with
+           | .ok, .val => true       -- by-value destination: only C02 (no panic) applies
+           | .ok, _ =>
+             (match o with
+              | .ok r => setAccepts n v p src (.ok r)
+              | .err r => setAccepts n v p src (.err r)
+              | .panic => setAccepts n v p src .panic)
+           | _, _ => true
+         classify st.cfg (fun c => setObsOf (setM c n f v p src noBuf)) acc impl showSetObs
+       | none => "skip unparsable-outcome")
+    | _, _, _, _, _ => "skip unresolved-input"
+  | _, _ => "skip bad-record"
+
 def handle (st : St) (line : String) : St × Option String :=
   match splitBar line with
   | ("T" :: tid :: toks) :: _ =>
@@ -431,6 +484,11 @@ def handle (st : St) (line : String) : St × Option String :=
     | some "LC" => (st, some (opLC st head path arg out))
     | some "D" => (st, some (opDeq st head path arg out))
     | some "CY" => (st, some (opCycle st [head, path, arg, out]))
+    | _ => (st, some "skip unknown-op")
+  | [head, path, src, mode, out] =>
+    match head.head? with
+    | some "S" => (st, some (opSet st head path src mode out))
+    | some "CY" => (st, some (opCycle st [head, path, src, mode, out]))
     | _ => (st, some "skip unknown-op")
   | parts =>
     match parts.head? with
